@@ -477,12 +477,51 @@ theorem holderOK_of_noColSrc (h : LGraph) (hE : ∀ u v, (u, v) ∈ h.edges → 
     have h2 := (dsEdge_isCol hd).1
     rw [h1] at h2; cases h2
 
+/-- `add_write_column(*cols)` only adds HAS_COLUMN edges from the written table: every edge of the result either was an edge of
+    `g` (same type) or leaves a dataset node and is typed HAS_COLUMN -/
+theorem addWriteColumns_edges (g : LGraph) (cols : List Column) (u v : Node)
+    (he : (u, v) ∈ (addWriteColumns g cols).edges) :
+    (u.isCol = false ∧ (addWriteColumns g cols).ety u v = some .hasColumn) ∨
+    ((u, v) ∈ g.edges ∧ (addWriteColumns g cols).ety u v = g.ety u v) := by
+  unfold addWriteColumns at he ⊢
+  split at he
+  · exact Or.inr ⟨he, rfl⟩
+  · rename_i t0 _
+    have key : ∀ (tp : DS × String) (l : List (Column × Nat)) (g0 : LGraph) (u v : Node),
+        (u, v) ∈ (l.foldl (fun g ci => g.addEdge (.ds t0) (ci.1.addParent tp).key .hasColumn (some ci.2) none
+          (some (.col (ci.1.addParent tp)))) g0).edges →
+        (u.isCol = false ∧ (l.foldl (fun g ci => g.addEdge (.ds t0) (ci.1.addParent tp).key .hasColumn (some ci.2) none
+          (some (.col (ci.1.addParent tp)))) g0).ety u v = some .hasColumn) ∨
+        ((u, v) ∈ g0.edges ∧ (l.foldl (fun g ci => g.addEdge (.ds t0) (ci.1.addParent tp).key .hasColumn (some ci.2) none
+          (some (.col (ci.1.addParent tp)))) g0).ety u v = g0.ety u v) := by
+      intro tp l
+      induction l with
+      | nil => intro g0 u v h; exact Or.inr ⟨h, rfl⟩
+      | cons x r ih =>
+        intro g0 u v h
+        simp only [List.foldl_cons] at h ⊢
+        rcases ih _ u v h with h1 | ⟨h1, h2⟩
+        · exact Or.inl h1
+        · rw [h2, ety_addEdge]
+          by_cases hx : u = Node.ds t0 ∧ v = (x.1.addParent tp).key
+          · left
+            rw [if_pos hx]
+            exact ⟨by rw [hx.1]; rfl, rfl⟩
+          · right
+            rw [if_neg hx]
+            refine ⟨?_, rfl⟩
+            rcases (mem_edges_addEdge _ _ _ (u, v) _ _ _ _).mp h1 with h3 | h3
+            · exact h3
+            · exact absurd ⟨congrArg Prod.fst h3, congrArg Prod.snd h3⟩ hx
+    exact key _ _ g u v he
+
 /-- the other statement kinds the script-level theorem admits: a plain SELECT over base tables, DROP, a no-op kind -/
 def plainStmt : Stmt → Bool
   | .query (.select d its frm wh grp hav) br => fragPlainSelect (.query (.select d its frm wh grp hav) br)
   | .drop _ _ _ => true
   | .noop _ _ => true
   | .createTableLike _ _ => true
+  | .createTable _ _ _ => true
   | _ => false
 
 theorem analyze_holderOK_plain (env : Env) (silent : Bool) (s : Stmt) (hs : plainStmt s = true) (g : LGraph)
@@ -530,7 +569,22 @@ theorem analyze_holderOK_plain (env : Env) (silent : Bool) (s : Stmt) (hs : plai
   | insertValues _ _ _ => simp [plainStmt] at hs
   | ctas _ _ _ _ _ => simp [plainStmt] at hs
   | createView _ _ _ _ => simp [plainStmt] at hs
-  | createTable _ _ _ => simp [plainStmt] at hs
+  | createTable tgt ine cols =>
+    -- `CREATE TABLE tgt (c1 …, …)`: the written table and its listed columns, HAS_COLUMN edges only
+    have hg0 : g = addWriteColumns (g0 (mkTable env tgt none)) (cols.map (fun c => listColumn c.1)) ∨ g = Graph.empty := by
+      unfold analyze at hg
+      split at hg
+      · split at hg <;> simp at hg
+        exact Or.inr hg.symm
+      · simp at hg; exact Or.inl hg.symm
+    rcases hg0 with rfl | rfl
+    · refine ⟨holderOK_of_noColSrc _ ?_, (wf_addWriteColumns _ _ (g0_wf _)).edges⟩
+      intro u v he
+      rcases addWriteColumns_edges _ _ u v he with ⟨h1, h2⟩ | ⟨h1, _⟩
+      · exact ⟨h1, by rw [h2]; simp⟩
+      · rw [g0_edges] at h1; cases h1
+    · refine ⟨holderOK_of_noColSrc _ (by intro u v he; cases he), ?_⟩
+      intro e he; cases he
   | createTableLike tgt src =>
     -- `CREATE TABLE tgt LIKE src`: the holder is g0(tgt) after one read, its only edge is the alias edge of `src`
     have hTR : ∀ o ∈ [mkTable env src none], isTabRef o = true := by
